@@ -597,6 +597,40 @@ def rates (j : Json) : Except String Json := do
   pure (Json.mkObj [("ok", Json.bool true), ("events", Json.arr (evS ++ evI).toArray), ("total", jRat (specTotal P st))])
 end DrvSC
 
+/-! ### percolation estimators (C17) -/
+namespace DrvPerc
+open Perc
+def run (j : Json) : Except String Json := do
+  let n ← getNat (← fld j "n")
+  let succL ← getList (getList getNat) (← fld j "succ")
+  let nodes := List.range n
+  let succ := listFn succL []
+  pure (Json.mkObj [("ok", Json.bool true),
+    ("allowed", jArr (fun p => Json.arr #[jRat p.1, jRat p.2]) (allowed nodes succ)),
+    ("maxscc", jNat (maxSccSize nodes succ))])
+end DrvPerc
+
+/-! ### ODE initial conditions (C06) -/
+namespace DrvIC
+open InitCond
+def run (j : Json) : Except String Json := do
+  let adj ← getList (getList getNat) (← fld j "adj")
+  let infs ← getList getNat (← fld j "infs")
+  let recs ← getList getNat (← fld j "recs")
+  let rho ← getRat (← fld j "rho")
+  let st := statusOf infs recs
+  let ks := List.range (maxDeg adj + 1)
+  let sts := [St.S, St.I, St.R]
+  pure (Json.mkObj [("ok", Json.bool true), ("N", jNat adj.length), ("twoM", jNat (twoM adj)),
+    ("Nk", jArr (fun k => jNat (Nk adj k)) ks),
+    ("count", jArr (fun x => jNat (count adj st x)) sts),
+    ("class", jArr (fun x => jArr (fun k => jNat (classCount adj st x k)) ks) sts),
+    ("pairs", jArr (fun a => jArr (fun b => jNat (pairCount adj st a b)) sts) sts),
+    ("rho", Json.mkObj [("S", jRat (rhoS adj rho)), ("I", jRat (rhoI adj rho)),
+        ("Sk", jArr (fun k => jRat (rhoSk adj rho k)) ks), ("Ik", jArr (fun k => jRat (rhoIk adj rho k)) ks),
+        ("SS", jRat (rhoSS adj rho)), ("SI", jRat (rhoSI adj rho)), ("II", jRat (rhoII adj rho))])])
+end DrvIC
+
 def dispatch (j : Json) : Except String Json := do
   let op ← getStr (← fld j "op")
   match op with
@@ -615,6 +649,8 @@ def dispatch (j : Json) : Except String Json := do
   | "esis" => DrvSS.run j
   | "complex" => DrvCC.run j
   | "simple" => DrvSC.run j
+  | "perc" => DrvPerc.run j
+  | "ode_ic" => DrvIC.run j
   | "simple_rates" => DrvSC.rates j
   | "reedfrost" => DrvD.reedfrost j
   | _ => .error s!"unknown op {op}"
